@@ -11,9 +11,7 @@ EXPECTED_CALLS = [
     "Handle: handleError pb.SyncResponse_FAULT",
     "Handle: if inputRunIds[0] != followerRunId",
     "Handle: handleError pb.SyncResponse_ERROR",
-    "Handle: if followerOffset-sp.Offset > 0",
     "Handle: Send pb.SyncResponse_HANDOVER",
-    "sendData: if !rl.channel.IsValidOffset(Offset{RunId: reqSp.RunId, Offset: reqSp.Offset})",
     "sendData: channel.IsValidOffset",
     "sendData: channel.NewReader",
     "sendData: handleError pb.SyncResponse_CLEAR",
@@ -60,8 +58,6 @@ EXPECTED_CALLS = [
     "preSync: channel.RunId",
     "preSync: channel.DelRunId",
     "preSync: channel.SetRunId",
-    "preSync: if gap > 0",
-    "preSync: if gap > 10*1024*1024",
     "preSync: channel.DelRunId",
     "preSync: channel.SetRunId",
     "metaSync: handleResp/3",
@@ -71,7 +67,6 @@ EXPECTED_CALLS = [
     "rdbSync: channel.NewRdbWriter",
     "rdbSync: handleResp/2",
     "aofSync: channel.StartPoint",
-    "aofSync: if left > sp.Offset && !sp.IsInitial()",
     "aofSync: channel.DelRunId",
     "aofSync: channel.SetRunId",
     "aofSync: channel.NewAofWritter",
@@ -236,7 +231,8 @@ EXPECTED_CODES = ["CLEAR=3", "CONTINUE=1", "ERROR=11", "FAILURE=12", "FAULT=10",
 PROP = {
     "lean_modules": ["GunYu.Props.C16", "GunYu.Props.C16Handover", "GunYu.Props.C16Id", "GunYu.Props.C16Fault",
                      "GunYu.Props.C16Reader", "GunYu.Props.C16Restart", "GunYu.Props.C16Promote", "GunYu.Props.C16Script",
-                     "GunYu.Props.C16PromoteNew"],
+                     "GunYu.Props.C16PromoteNew", "GunYu.Props.C16Snap", "GunYu.Props.C16Lives", "GunYu.Props.C16Guards"],
+    "gens": ["c16guards"],
     "audit_namespaces": ["GunYu.Props.C16"],
     "required_theorems": [
         "GunYu.Props.C16.follower_prefix_of_leader",
@@ -308,6 +304,31 @@ PROP = {
         "GunYu.Props.C16.stream_script_srcOk",
         "GunYu.Props.C16.stream_transfer_crash_image_faithful",
         "GunYu.Props.C16.promoted_new_storer_cache_ok",
+        # session 5: SnapRecvOk discharged for snapshot transfers (Props/C16Snap.lean)
+        "GunYu.Props.C16.snapRecvOk_of_snapSrcOk",
+        "GunYu.Props.C16.session_snapshot_payload_is_history",
+        "GunYu.Props.C16.transfer_script_wf_srcOk",
+        "GunYu.Props.C16.transfer_script_snapSrcOk",
+        "GunYu.Props.C16.snapshot_transfer_crash_image_faithful",
+        # session 5: a kill in a second (any) process life, short writes included (Props/C16Lives.lean over C08Root)
+        "GunYu.Props.C16.dirOk_imageOk",
+        "GunYu.Props.C16.second_life_dir_ok",
+        "GunYu.Props.C16.lives_dir_ok",
+        "GunYu.Props.C16.lives_reopened_faithful",
+        "GunYu.Props.C16.crash_step_ok_lives",
+        "GunYu.Props.C16.resumeAt_of_data",
+        "GunYu.Props.C16.resume_stream_life_ok",
+        "GunYu.Props.C16.snapshot_life_ok",
+        # session 5: the offset guards regenerated from the source (Gen/ReplicaGuards.lean) are the model's (Props/C16Guards.lean)
+        "GunYu.Props.C16.gen_handleAhead_eq_model",
+        "GunYu.Props.C16.gen_sendDataFallback_eq_model",
+        "GunYu.Props.C16.gen_preSyncGap_eq_model",
+        "GunYu.Props.C16.gen_preSyncGapPos_eq_model",
+        "GunYu.Props.C16.gen_preSyncGapFar_eq_model",
+        "GunYu.Props.C16.gen_aofSyncDiscard_eq_model",
+        "GunYu.Props.C16.handle_uses_gen",
+        "GunYu.Props.C16.preSync_uses_gen",
+        "GunYu.Props.C16.aofSync_uses_gen",
     ],
     "expected_facts": {"c16_gap_threshold": 10485760, "c16_codes": EXPECTED_CODES, "c16_calls": EXPECTED_CALLS, "c16_cmd": EXPECTED_CMD,
                        "c16_runcluster": EXPECTED_RUNCLUSTER, "c16_idsrc": EXPECTED_IDSRC},
@@ -403,7 +424,14 @@ PROP = {
             "with what the real sendData sent; op cache (after every session, both backends): C06's Cache.getRdb / getOffsetRange / latest "
             "of Props/C16Promote.lean cacheOfData of the store against the real Channel.GetRdb / GetOffsetRange / StartPoint(nil); "
             "monitors id-not-from-source and source-id-misread (a reference reading of the same "
-            "texts written in Go, independent of the Lean model)",
+            "texts written in Go, independent of the Lean model). Session 5: round extra fs=<k>: the FOLLOWER's own Stop() "
+            "(ReplicaFollower.Stop as runFollower calls it: wait closed, connection closed, waits for Run) is called when k CONTINUE "
+            "messages of a transfer are out (a snapshot transfer only while bytes are still to come) and — explicit condition — the "
+            "follower has opened the writer of the announced transfer (counted in the harness's channel wrapper; from there on what it "
+            "has not read is lost like bytes in its pipe), with Quiet after it has stored every sent byte (then a loss is the violation "
+            "lost-bytes-when-quiescent); Run must return nil; for the model the session is cut after the messages that were out "
+            "(`sess` op as for an abrupt cut: messages, outcome, store); disk: a new process life (new Storer, new Run) goes on "
+            "afterwards. Counters follower_stopped_aof / _rdb / _quiescent",
     "trusted": ["grpc-go on loopback TCP between the real Run and the real ServiceReplica (no fake transport); the harness's stream wrapper, "
                 "WaitCloser/Logger wrappers of the follower and Input/Channel wrappers of the leader",
                 "history oracle of the harness (two run ids differ at every offset) and its file parser for the disk backend",
@@ -415,7 +443,13 @@ PROP = {
                 "C16ho: the lease double (semantics of pkg/cluster/redis's election scripts: one key, value = the instance's peer address, TTL; "
                 "not etcd's), the replication-source double (INFO/ROLE/REPLCONF/PSYNC with FULLRESYNC and CONTINUE), pkg/vfdoubles.Target behind "
                 "a loopback listener, the goroutine profile with pprof labels as the observation of 'leader syncer running'"],
-    "assumptions": ["regenerated: preSync's gap threshold (Gen/ReplicaConsts.lean, used by the model); compared with expectation: response code numbers "
+    "assumptions": ["regenerated (session 5, harness/extract/c16guards.go -> Gen/ReplicaGuards.lean): the offset guards of the handshake — "
+                    "Handle's hand-over test, sendData's fallback to the newest offset, preSync's distance / adopt / far-behind tests, "
+                    "aofSync's discard test — found by what their branch does, operands named by where they are defined (int64 as Int: "
+                    "wrap-around not modelled); Props/C16Guards.lean proves each equal to the model's expression and View.handle / preSync / "
+                    "aofSync equal to the same functions written with the generated guards (an operator / operand / constant changed in the "
+                    "code breaks a proof; renamed locals, swapped operands, an extracted message helper do not)",
+                    "regenerated: preSync's gap threshold (Gen/ReplicaConsts.lean, used by the model); compared with expectation: response code numbers "
                     "and the ordered list of channel calls / Sends / handleResp arities / guarding conditions of every ReplicaLeader and "
                     "ReplicaFollower method, Run's state assignments and ServiceReplica's gate (a change means the model has to be re-read)",
                     "model tied by correspondence (hand-written transcription of syncer/replica.go, syncer_replica.go, channel.go, pkg/store "
@@ -448,10 +482,21 @@ PROP = {
                     "restart from a crash image: Props/C16Restart.lean takes per directory an ARBITRARY image with the hypothesis ImageOk "
                     "(C08's FsTrue against history id + the offered snapshot file is history's snapshot); crash_image_step_ok discharges it for "
                     "every crash image of every writers' script (C08: crash_images_truthful, script_ops_true, crash_snapshot_true) plus the "
-                    "explicit link SnapRecvOk (what the follower's snapshot writer RECEIVED completely is history's snapshot: C16's Shape.rdb / "
-                    "rdbLoop_complete_eq say this of the session model; the writers' script and the session are two models of the same run, "
-                    "tied by the harness, not by a theorem). The crash step does not relate the images to the store before the crash "
-                    "(stronger: any truthful images). Harness images are taken between two writes",
+                    "explicit link SnapRecvOk (what the follower's snapshot writer RECEIVED completely is history's snapshot). Session 5: "
+                    "SnapRecvOk is now PROVED from a per-call condition SnapSrcOk (the snapshot twin of C08's SrcOk: writer created with "
+                    "the size of history's snapshot, every chunk keeps the received bytes a prefix of it; snapRecvOk_of_snapSrcOk, every "
+                    "script), and SnapSrcOk / wf / SrcOk are proved for the script of one session's snapshot(+stream) transfer from what "
+                    "the session model hands to the writers (session_snapshot_payload_is_history from Shape.rdb; transfer_script_*; "
+                    "snapshot_transfer_crash_image_faithful: no hypothesis about the script left). Kills in a second / any later "
+                    "process life: DirOk (FsTrue + unique names + C08 SnapOk + snapshot content = history's) is an invariant of lives "
+                    "over C08Root's model (re-open any directory, any script WITH FAULTS incl. short writes, death anywhere: "
+                    "second_life_dir_ok, lives_reopened_faithful, crash_step_ok_lives), and its hypotheses are discharged for the "
+                    "stream continuation of a re-opened follower (resume_stream_life_ok: writer at the end of what was re-opened — "
+                    "resumeAt_of_data links that to C16's dataOfReopened — chunks history's, the last one possibly short-written). "
+                    "That the transfer script / life script IS what the real writers do in a session is still the harness's "
+                    "construction (cr=<K> rounds, `reopen` op), not a refinement theorem between sessionV and the DOp script. The crash "
+                    "step does not relate the images to the store before the crash (stronger: any truthful images). Harness images are "
+                    "taken between two writes",
                     "promotion: promoted_follower_cache_ok gives C06's CacheOK for ANY source and CacheWF under two side conditions on what is "
                     "held — offsets within int64 and a non-empty snapshot (from the history: promoted_cache_wf_of_hist) — as C08's bridge; "
                     "Agrees (C06's World and C16's Hist are the same histories, stream bytes) is an interface assumption between the two "
@@ -510,9 +555,15 @@ PROP = {
                     "pauses only). The election config of the process (leaseTimeout 9 s, renew 1 s) is shared by the scenarios; the lease "
                     "double's TTL is per scenario. Break errors (a failed Campaign, a failed Renew) end runCluster and restart the whole "
                     "command: modelled (pause 0 / restart), not executed",
-                    "not generated: the follower's own Stop() in the middle of a transfer; back-pressure of the follower's pipe is not forced "
+                    "the follower's own Stop() in the middle of a transfer is generated since session 5 (fs=<k>) and modelled as a cut after the "
+                    "messages that were out, with the observed loss (ReplicaFollower.Stop closes the wait and the connection: the receive "
+                    "loop ends like on a transport failure, the writers are closed without draining the pipe; Run returns nil)",
+                    "not generated: back-pressure of the follower's pipe is not forced "
                     "(transfers above the pipe size are generated, but the real writers drain it quickly); the syncer's channel shared between the "
-                    "follower and leader roles of one process (runFollower/RunLeader on one channel object) — the harness owns one channel per role"],
+                    "follower and leader roles of one process: NewSyncer creates a NEW channel object per syncer (source fact c16_runcluster "
+                    "'NewSyncer: sy.channel = NewChannel'), ServiceReplica's gate refuses requests while the role is not leader, and "
+                    "syncer.run closes the channel when the role ends — a follower never serves a sub-follower and a promoted follower "
+                    "serves from a new Storer over the same directory (promoted_new_storer_cache_ok); the harness owns one channel per role"],
     "partial": ["theorems that restate one unfolding of a model function (their content is the harness tie, not the proof): write_fault_stream, "
                 "write_fault_stream_fresh (aofRecv / Loss.written), resumes_at_durable_end (= preSync_pos; about preSync's answer, the request "
                 "of the NEXT session is the monitor resume-beyond-durable), and in C16Handover resign_after_stop, resign_frees, campaign_outcome, "
@@ -523,12 +574,16 @@ PROP = {
                 "disk: cache AND tail derived (leader_faithful_of_disk; the snapshot's content has no ghost in C05's model: hypothesis hsn); "
                 "memory: tail derived under NoReturn, the cache part d.Faithful stays a hypothesis; a same-id FULLRESYNC (DelRunId x; SetRunId x) "
                 "is outside NoReturn (the reader ends by EOF there)",
-                "composition with C08: for a STREAM transfer into a fresh directory nothing is assumed any more "
-                "(stream_transfer_crash_image_faithful: wf, SrcOk, SnapRecvOk of the induced script proved, SrcOk from C16's own "
-                "session_stream_payload_is_history); for SNAPSHOT transfers SnapRecvOk stays a hypothesis; crash scripts start from the EMPTY "
-                "directory (Disk.init, crashImage []): a kill in a second process lifetime (writers on a re-opened, non-empty directory) is an "
-                "instance only through the arbitrary-image theorem reopened_data_faithful + ImageOk, not through C08's script theorems; the "
-                "crash step's images are not related to the store before the crash",
+                "composition with C08: for a STREAM transfer and (session 5) for a SNAPSHOT(+stream) transfer into a fresh directory "
+                "nothing is assumed about the script any more (stream_transfer_crash_image_faithful, snapshot_transfer_crash_image_faithful: "
+                "wf, SrcOk, SnapRecvOk of the induced script proved from C16's own session facts); a kill in a second / later process life is "
+                "covered through C08Root's life model (lives_reopened_faithful, crash_step_ok_lives) with the life's hypotheses discharged for "
+                "the stream continuation of a re-opened follower (resume_stream_life_ok, short write included) and for a life that takes a NEW "
+                "snapshot on any directory (snapshot_life_ok: NewRdbWriter resets the data set itself; a DelRunId that removed the directory "
+                "first makes it a life on the empty one; a kill INSIDE DelRunId's RemoveAll is C08Root's del_run_id_crash_true, not re-stated "
+                "in C16's vocabulary); the crash "
+                "step's images are not related to the store before the crash; the scripts are tied to the real writers by the harness "
+                "(cr=<K>), not by a refinement theorem sessionV -> DOp script",
                 "promotion bridge: the memory case is void (memory_cache_lost_at_promotion: the promoted syncer gets a new empty channel); disk: "
                 "promoted_new_storer_cache_ok starts from the new Storer (cur = \"\" + VerifyRunId(ids)) over StepC lives; Holds.rdb_tok is true "
                 "by construction of cdataOfData (C06 constrains a snapshot only through its token); Agrees is an interface assumption",
@@ -537,12 +592,14 @@ PROP = {
                 "the composition with C05 (open reader serves its own id) and with C08 (crash images) is proved over THEIR operation-list / "
                 "directory-image models; the identification of a `sess` op's Leader record / of a crash round's image with such a run is the "
                 "harness's construction (correspondence), not a refinement theorem between the two models",
-                "SnapRecvOk (what the follower's snapshot writer received completely is the history's snapshot) links C16's session model to "
-                "C08's writers' script: stated as a hypothesis of crash_image_step_ok",
+                "SnapRecvOk is still a hypothesis of crash_image_step_ok ITSELF (general scripts); it is discharged by "
+                "snapRecvOk_of_snapSrcOk for every script that satisfies the per-call condition SnapSrcOk, and for the session's transfer script",
                 "hq for a memory leader rests on the source never reporting \"?\" (a hostile / broken source is outside the property)",
-                "a short write (n > 0 together with an error) under the follower is not injected by C16 (C08 does); the follower's own Stop() in "
-                "the middle of a transfer and the channel object shared between the follower and leader roles of one process remain "
-                "not generated"],
+                "a short write (n > 0 together with an error) under the follower is in the Lean life model (C08's aofAppendShort inside "
+                "resume_stream_life_ok) but is not injected by C16's harness (C08's does, with RLIMIT_FSIZE in a child process)",
+                "every request of a session still gets its own C05 run (LeaderFromC05 existential per request, not chained); the handshake "
+                "guards that compare run ids / codes (selfInspection, Handle's id tests, preSync's first test, handleResp) are still "
+                "source-fact strings (c16_calls); the OFFSET guards are regenerated (below)"],
 }
 
 MANIFEST = {
@@ -567,7 +624,12 @@ MANIFEST = {
             "failing file writes and a failing commit of the follower's own store (any fault point: exactly the written bytes are kept, no "
             "snapshot is kept or announced, the next session resumes at the durable end), restarts from crash images (C08's reopen imported), "
             "and the bridge to C06 (a promoted follower's cache satisfies CacheWF / CacheOK) are theorems, tied by fault injection under the real "
-            "Run, by killing and restarting the real follower on frozen directory images, and by monitors on the wire.",
+            "Run, by killing and restarting the real follower on frozen directory images, and by monitors on the wire. "
+            "Session 5: the link between the session model and C08's writers' scripts is proved for snapshot transfers too (a per-call "
+            "condition SnapSrcOk implies SnapRecvOk for every script; the script of a session's snapshot+stream transfer satisfies C08's "
+            "hypotheses for every chunking: a follower killed at any instant of it re-opens a faithful copy), kills in a second or any "
+            "later process life are covered (DirOk is an invariant of lives over C08's restart model, faults and short writes included), "
+            "and the follower's own Stop() in the middle of a transfer is generated against the real Run (47 sessions per quick run).",
     "note": "trusted: Lean kernel (propext, Classical.choice, Quot.sound only), grpc-go, harness wrappers and oracle; model hand-written "
             "(correspondence); a leader's cache assumed faithful to its channel id (C05/C06/C08); C05's and C08's models imported for open readers "
             "and crash images",
